@@ -94,6 +94,9 @@ func (s *Sel) Wait() int {
 			sc = nil
 		}
 	}
+	if n0 := len(s.cases); n0 > 1 {
+		Drowse("select")
+	}
 	Yield(s.site)
 	n := len(s.cases)
 	start := 0
